@@ -117,7 +117,8 @@ class VLoop(asyncio.BaseEventLoop):
     def step(self, horizon=None, allow_timers=True):
         """Run one event.  Returns False when nothing can run (quiescent up to
         horizon)."""
-        self._move_due_timers()
+        if allow_timers:
+            self._move_due_timers()
         self._prune_ready()
         if self.scheduler is None and not self.held and self._ready:
             # fast path: stock asyncio order
@@ -219,8 +220,12 @@ class VLoop(asyncio.BaseEventLoop):
                 raise StepBudgetExceeded(f'{max_steps} steps')
         self._vtime = max(self._vtime, target)
 
-    def collect_exceptions(self):
-        gc.collect()
+    def collect_exceptions(self, gc_collect=False):
+        """Exceptions seen by the loop exception handler since the last call.
+        gc_collect=True first forces 'exception was never retrieved' reports of
+        unreachable tasks/futures (slow: full collection)."""
+        if gc_collect:
+            gc.collect()
         ex, self.exceptions = self.exceptions, []
         return ex
 
